@@ -3,13 +3,12 @@
 use std::collections::HashMap;
 use std::fmt::Debug;
 use std::ops::{Deref, DerefMut};
-use std::sync::Arc;
 
 #[cfg(feature = "Debug")]
 use crate::common::debug;
 
 use crate::datamodel::{
-    create_data_arc, data_arc_to_string, numeric_to_integer, operation_and, operation_divide, operation_equal,
+    create_data_arc, data_to_string, numeric_to_integer, operation_and, operation_divide, operation_equal,
     operation_greater, operation_greater_equal, operation_less, operation_less_equal, operation_minus,
     operation_modulus, operation_multiply, operation_not_equal, operation_or, operation_plus, Data, DataArc,
     GlobalDataLock, ToAny,
@@ -255,6 +254,8 @@ impl Expression for ExpressionIndex {
             (Err(err), _) => Err(err),
             (_, Err(err)) => Err(err),
             (Ok(left_value), Ok(index_value)) => {
+                // Copy the index first: index and indexed value may be the same object.
+                let index_data = index_value.lock().unwrap().clone();
                 let mut data_ref = left_value.lock().unwrap();
                 let data = data_ref.deref_mut();
                 match data {
@@ -265,7 +266,7 @@ impl Expression for ExpressionIndex {
                     | Data::Source(_)
                     | Data::Null()
                     | Data::None() => Err(format!("Can't apply index on '{}'", data)),
-                    Data::Map(m) => match data_arc_to_string(&index_value) {
+                    Data::Map(m) => match data_to_string(&index_data) {
                         Ok(key) => match m.get(&key) {
                             None => {
                                 if allow_undefined {
@@ -280,7 +281,7 @@ impl Expression for ExpressionIndex {
                         },
                         Err(err) => Err(err),
                     },
-                    Data::Array(m) => match numeric_to_integer(index_value.lock().unwrap().deref()) {
+                    Data::Array(m) => match numeric_to_integer(&index_data) {
                         Some(index) => match m.get(index as usize) {
                             None => Err(format!("Index not found: {} (len={})", index, m.len())),
                             Some(value) => Ok(value.clone()),
@@ -385,8 +386,9 @@ impl Expression for ExpressionAssign {
                 Ok(v) => match right_result {
                     Err(err) => Err(err),
                     Ok(right_arc) => {
-                        let right_guard = right_arc.lock().unwrap();
-                        match right_guard.deref() {
+                        // Copy the value: both sides may be the same object.
+                        let right_data = right_arc.lock().unwrap().clone();
+                        match &right_data {
                             Data::Integer(_)
                             | Data::Double(_)
                             | Data::String(_)
@@ -398,13 +400,11 @@ impl Expression for ExpressionAssign {
                                 if v.is_readonly() {
                                     Err(format!("Can't set read-only {v}"))
                                 } else {
-                                    right_guard
-                                        .deref()
-                                        .clone_into(v.lock().unwrap().deref_mut());
+                                    right_data.clone_into(v.lock().unwrap().deref_mut());
                                     Ok(v.clone())
                                 }
                             }
-                            Data::Error(_) | Data::None() => Err(format!("Can't assign from '{}'", right_guard)),
+                            Data::Error(_) | Data::None() => Err(format!("Can't assign from '{}'", right_data)),
                         }
                     }
                 },
@@ -451,11 +451,9 @@ impl Expression for ExpressionAssignUndefined {
             match left_result {
                 Err(err) => Err(err),
                 Ok(left_value) => {
-                    right_result
-                        .lock()
-                        .unwrap()
-                        .deref()
-                        .clone_into(left_value.lock().unwrap().deref_mut());
+                    // Copy the value: both sides may be the same object.
+                    let right_data = right_result.lock().unwrap().clone();
+                    right_data.clone_into(left_value.lock().unwrap().deref_mut());
                     Ok(left_value.clone())
                 }
             }
@@ -535,21 +533,11 @@ impl Expression for ExpressionOperator {
             "ExpressionOperator::execute: <{:?}={}> {:?} <{:?}={}>",
             self.left, left_result, self.operator, self.right, right_result
         );
-        let result_data = if Arc::ptr_eq(&left_result.arc, &right_result.arc) {
-            // Same object, we have to clone the content at least for one side to avoid deadlock.
-            let left_data = left_result.lock().unwrap().clone();
-            Self::operation(
-                &left_data,
-                &self.operator,
-                right_result.lock().unwrap().deref(),
-            )
-        } else {
-            Self::operation(
-                &left_result.lock().unwrap(),
-                &self.operator,
-                right_result.lock().unwrap().deref(),
-            )
-        };
+        // Copy both operands: they may be the same object or contain each other, and comparing
+        // nested values locks the contained objects.
+        let left_data = left_result.lock().unwrap().clone();
+        let right_data = right_result.lock().unwrap().clone();
+        let result_data = Self::operation(&left_data, &self.operator, &right_data);
         Ok(create_data_arc(result_data))
     }
 
